@@ -10,9 +10,12 @@ import (
 	"io"
 	"net"
 	"net/http"
+	"net/http/httptest"
+	"net/url"
 	"sort"
 	"strings"
 	"sync"
+	"sync/atomic"
 	"testing"
 	"time"
 
@@ -232,6 +235,52 @@ func runSchedule(carrier, kind string, steps []Step, postOps bool, copt ...carri
 				}
 			}
 			time.Sleep(50 * time.Microsecond)
+		}
+	}
+	if !handlerDone && started && carrier == cInproc && !r.wasCancelled() {
+		// the in-process channel documents room for one frame in each direction ("backpressure comes from tiny
+		// buffer"): the first frame a handler produces (its headers or its first message, nothing set or sent before)
+		// is therefore always taken, whether or not anybody receives. A handler parked in that operation can never
+		// answer a client that sends everything before it receives (the only order the generated stubs of a
+		// client-streaming method allow): both sides wait for each other.
+		firstFrame := func() (string, bool) {
+			r.mu.Lock()
+			defer r.mu.Unlock()
+			pending := ""
+			for _, ev := range r.events {
+				if ev.Step.Actor != "h" && ev.Step.Actor != "h2" {
+					continue
+				}
+				switch ev.Step.Op {
+				case "send", "sendhdr", "sethdr":
+					if ev.Done {
+						return "", false
+					}
+					if ev.Step.Actor == "h" && ev.Step.Op != "sethdr" {
+						pending = ev.Step.Op
+					} else {
+						return "", false
+					}
+				}
+			}
+			return pending, pending != ""
+		}
+		if op, ok := firstFrame(); ok {
+			stuck := true
+			for i := 0; i < 60 && stuck; i++ {
+				time.Sleep(5 * time.Millisecond)
+				gid := r.actors["h"].gidOf()
+				_, still := firstFrame()
+				select {
+				case <-r.hDone:
+					still = false
+				default:
+				}
+				stuck = still && gid > 0 && blockedState(goroutineState(gid))
+			}
+			if stuck {
+				res.StallA = fmt.Sprintf("the handler is parked in its first response-side operation (%s; nothing set or sent before it, nobody receiving yet): the one-frame buffer the channel documents did not take it, so a client that sends before it receives waits for the handler and the handler for the client\n%s", op, goroutineDump())
+			}
 		}
 	}
 	var drain []Step
@@ -523,6 +572,84 @@ func c05Unary(c c05Case) *Outcome {
 		}
 		time.Sleep(500 * time.Microsecond)
 	}
+	if c.UnaryEnd == "none" && isHTTP(c.Carrier) {
+		return c05UnaryConns(c, o)
+	}
+	return o
+}
+
+// countingConn / c05UnaryConns: what a finished unary call leaves behind at the HTTP level. The caller's context
+// stays alive; once the call has returned (success or a status from the handler) its connection is either back in
+// the transport's idle pool or closed - so after CloseIdleConnections nothing is open any more. A reply body that
+// is never read to its end or closed pins the connection and the transport's goroutines for good.
+type countingConn struct {
+	net.Conn
+	once sync.Once
+	open *atomic.Int64
+}
+
+func (c *countingConn) Close() error {
+	c.once.Do(func() { c.open.Add(-1) })
+	return c.Conn.Close()
+}
+
+func c05UnaryConns(c c05Case, o *Outcome) *Outcome {
+	svc := &Service{Unary: func(hctx context.Context, req *pb.Message) (*pb.Message, error) {
+		for _, op := range c.UnaryOps {
+			switch op {
+			case "sethdr":
+				grpc.SetHeader(hctx, metadata.Pairs("h", "1"))
+			case "sendhdr":
+				grpc.SendHeader(hctx, metadata.Pairs("h", "2"))
+			case "settlr":
+				grpc.SetTrailer(hctx, metadata.Pairs("t", "1"))
+			}
+		}
+		if c.UnaryFinal != "nil" {
+			return nil, status.Error(codes.FailedPrecondition, strings.Repeat("scripted ", 1+int(req.Count)*40))
+		}
+		return &pb.Message{Count: 7}, nil
+	}}
+	srv := httptest.NewServer(newHTTPHandlerBase(c.Carrier, "", newServiceDesc(), svc))
+	defer srv.Close()
+	var open atomic.Int64
+	dials := 0
+	tr := &http.Transport{DialContext: func(ctx context.Context, network, addr string) (net.Conn, error) {
+		conn, err := (&net.Dialer{}).DialContext(ctx, network, addr)
+		if err != nil {
+			return nil, err
+		}
+		dials++
+		open.Add(1)
+		return &countingConn{Conn: conn, open: &open}, nil
+	}}
+	u, _ := url.Parse(srv.URL)
+	ch := &httpgrpc.Channel{Transport: tr, BaseURL: u}
+	for rep := 0; rep < c.UnaryReps; rep++ {
+		var err error
+		var hdr, tlr metadata.MD
+		if stall := guard("unary call", func() {
+			err = ch.Invoke(context.Background(), mUnary, &pb.Message{Count: int32(rep)}, new(pb.Message), grpc.Header(&hdr), grpc.Trailer(&tlr))
+		}); stall != "" {
+			return o.failf("%s/unary, connection census, call %d: %s", c.Carrier, rep, stall)
+		}
+		if (c.UnaryFinal == "nil") != (err == nil) {
+			return o.failf("%s/unary, connection census (final %s), call %d: caller got %s", c.Carrier, c.UnaryFinal, rep, errStr(err))
+		}
+	}
+	deadline := time.Now().Add(3 * time.Second)
+	for {
+		tr.CloseIdleConnections()
+		n := open.Load()
+		if n <= 0 {
+			break
+		}
+		if time.Now().After(deadline) {
+			return o.failf("%s/unary (handler ops %v, final %s): %d call(s) have returned (caller's context alive, %d connection(s) dialled): %d connection(s) are neither idle nor closed 3s later - their replies were never released", c.Carrier, c.UnaryOps, c.UnaryFinal, c.UnaryReps, dials, n)
+		}
+		time.Sleep(time.Millisecond)
+	}
+	o.class("unary/connection-census")
 	return o
 }
 
@@ -919,7 +1046,7 @@ func init() { registerReplay("C05", propC05) }
 
 const c05Rule = "rapid-generated schedules of <=14 steps over three actors (client sender: SendMsg small/medium, CloseSend also repeated; client receiver: RecvMsg, Header, Trailer; handler: RecvMsg, SendMsg, SetHeader, SendHeader, SetTrailer, return ok/err) plus cancellation, on the in-process channel, httpgrpc.Server and HandleServices for client-, server- and bidi-streaming; each step is released when the previous one has returned or parked (goroutine state from runtime.Stack); " +
 	"then phase A (client closes and drains, handler returns), phase B (context cancelled), operations after completion, goroutine census; invariants: no panic; everything finishes in phase A (10 s, stable park = deadlock) and certainly in phase B; later operations return; without cancellation sends return nil or io.EOF (EOF only once the handler returned), receives are an intact prefix of what the handler sent followed by the handler's status, stable across repeated calls; no library goroutine survives; " +
-	"also generated since the seeded rounds: a second client goroutine calling CloseSend, a second handler goroutine (in-process) incl. SendHeader after the handler returned, sends above 256 KiB, undecodable reply headers and HTTP-level rejection (401/403/404/415/502/503 from a middleware: only termination, panics and leaks judged), senders-only drain stage, a second receiving goroutine calling Header() concurrently with RecvMsg, the per-method HTTP server form, handlers answering a single-response method 3..5 times, a sender 2..4 messages ahead of a handler that sets headers/trailers and leaves, a handler that returns while its helper goroutine and the client's sender are both parked in sends, and a goroutine census taken before any cancellation once the client has received the final status; streaming calls whose connection attempt fails after 1..100 ms while the client has started sending and the caller's context stays alive; unary calls (3..8 in a row) that the caller abandons by cancellation or deadline while the handler is at work, the handler then setting/sending headers and trailers in any order and returning nil, a status or its context's error (call returns, handler operations return, no library goroutine left); " +
+	"also generated since the seeded rounds: a second client goroutine calling CloseSend, a second handler goroutine (in-process) incl. SendHeader after the handler returned, sends above 256 KiB, undecodable reply headers and HTTP-level rejection (401/403/404/415/502/503 from a middleware: only termination, panics and leaks judged), senders-only drain stage, a second receiving goroutine calling Header() concurrently with RecvMsg, the per-method HTTP server form, handlers answering a single-response method 3..5 times, a sender 2..4 messages ahead of a handler that sets headers/trailers and leaves, a handler that returns while its helper goroutine and the client's sender are both parked in sends, and a goroutine census taken before any cancellation once the client has received the final status; streaming calls whose connection attempt fails after 1..100 ms while the client has started sending and the caller's context stays alive; unary calls (3..8 in a row) that the caller abandons by cancellation or deadline while the handler is at work, the handler then setting/sending headers and trailers in any order and returning nil, a status or its context's error (call returns, handler operations return, no library goroutine left); unary calls over HTTP that are not abandoned, through a transport with a counting dialer (once they have returned, CloseIdleConnections leaves no connection open); in-process: a handler parked in its first response-side frame (nothing set or sent before) is a deadlock, the documented one-frame buffer takes it whoever receives; " +
 	"non-trivial = a scheduled client operation was pending or issued after the handler returned; distinct by case hash"
 
 func TestC05(t *testing.T) {
